@@ -441,7 +441,7 @@ var MutKinds = []string{
 	"unused-param", "unused-output", "strip-invoke", "invoke-with-outputs",
 	"fallback-no-error", "instr-no-emitter", "invoke-nonconst", "dup-params-two-options",
 	// unsupported signatures: type-correct Go that cff must refuse
-	"sig-prednamedbool", "sig-pred2", "sig-predvariadic", "sig-fbarity",
+	"sig-prednamedbool", "sig-pred2", "sig-predvariadic", "sig-fbarity", "sig-shape", "sig-shape",
 }
 
 func (g *Gen) freshType(p *ps.Program) (int, bool) {
@@ -685,6 +685,51 @@ func (g *Gen) Mutate(p *ps.Program, kind string) bool {
 		t.PForm = "lit"
 		p.Quirk = kind
 		p.QuirkK = t.K
+	case "sig-shape":
+		// The function of one task gets a random unsupported shape: a context.Context that is not
+		// the first parameter, an error that is not the last result, or a variadic parameter.
+		if len(p.Tasks) == 0 {
+			return false
+		}
+		t := p.Tasks[g.R.Intn(len(p.Tasks))]
+		np, nr := 1+g.R.Intn(3), 1+g.R.Intn(3)
+		ps_ := make([]byte, np)
+		rs := make([]byte, nr)
+		for i := range ps_ {
+			ps_[i] = 'v'
+		}
+		for i := range rs {
+			rs[i] = 'v'
+		}
+		if g.chance(50) {
+			ps_[0] = 'c'
+		}
+		if g.chance(50) {
+			rs[nr-1] = 'e'
+		}
+		sigP, sigR := "", ""
+		switch g.R.Intn(3) {
+		case 0: // ctx later
+			if np < 2 {
+				ps_ = append(ps_, 'v')
+				np++
+			}
+			ps_[1+g.R.Intn(np-1)] = 'c'
+			sigP, sigR = string(ps_), string(rs)
+		case 1: // error not last
+			if nr < 2 {
+				rs = append(rs, 'v')
+				nr++
+			}
+			rs[g.R.Intn(nr-1)] = 'e'
+			sigP, sigR = string(ps_), string(rs)
+		default: // variadic
+			if ps_[np-1] == 'c' {
+				ps_ = append(ps_, 'v')
+			}
+			sigP, sigR = string(ps_)+"V", string(rs)
+		}
+		p.Quirk, p.QuirkK, p.SigP, p.SigR = kind, t.K, sigP, sigR
 	case "sig-fbarity":
 		// cff.FallbackWith with one value too many.
 		ts := tasksWith(func(t *ps.Task) bool { return t.FB && len(t.Outs) > 0 })
